@@ -76,6 +76,8 @@ def jobs(tier):
         sh.append(('omen', 'utf-8', 0x20, 0x300))
     for enc in ('latin-1', 'cp1251'):
         sh.append(('omen8', enc))
+    # a 16-bit encoding end to end (not ASCII compatible: exposes readers that ignore the ruleset encoding)
+    sh.append(('omen_list', 'utf-16', [0x20, 0x41, 0x61, 0xE9, 0x430, 0x20AC, 0x3042, 0x1F600, 0xA0, 0x3000, 0x21, 0x31]))
     return sh
 
 
@@ -85,7 +87,7 @@ def shards(tier):
 
 def bounds(tier):
     return {'code_points': 'U+0020..U+10FFFF without surrogates', 'special_code_points': len(special_cps()),
-            'positions': ['c+x', 'x+c+y', 'x+c'], 'encodings': ['utf-8', 'latin-1', 'cp1251', 'utf-16 (special code points)'],
+            'positions': ['c+x', 'x+c+y', 'x+c'], 'encodings': ['utf-8', 'latin-1', 'cp1251', 'utf-16 (special code points; 12 code points end to end)'],
             'omen_role': 'every code point' if tier == 'thorough' else 'special code points + U+0020..U+02FF',
             'terminal_role': 'every code point x 3 positions' if tier == 'thorough' else 'every code point (inner position) + special code points x 3 positions'}
 
